@@ -45,11 +45,9 @@ def stF (now : Int) (t : State) (x : Name × Cmp) : State :=
   run t (toCache t.mem x.1 (Entry.ofCmp x.2 .validated) .validated now ++
     [Prim.fqPush x.1 { Entry.ofCmp x.2 .validated with time := now }])
 
-/-- one entry of the validate list: toCache(received), process -/
+/-- one entry of the validate list: the duplicate branch, or toCache(received) and process -/
 def stV (H : Body → String) (now : Int) (t : State) (x : Name × Cmp) : State :=
-  run (run t (toCache t.mem x.1 (Entry.ofCmp x.2 .received) .received now))
-    (processCore H (run t (toCache t.mem x.1 (Entry.ofCmp x.2 .received) .received now)) x.1
-      { Entry.ofCmp x.2 .received with time := now } now)
+  run t (recoverValOne H t now x)
 
 theorem recover_state (H : Body → String) (s : State) (now : Int) (names : List Name) :
     run s (recoverEffects H s now names) =
@@ -60,10 +58,7 @@ theorem recover_state (H : Body → String) (s : State) (now : Int) (names : Lis
   have hr3 : r3.1 = run s2 r3.2 :=
     foldl_fst_run stepF (fun acc x => ⟨_, rfl⟩) s2 fins (s2, []) rfl
   have hr4 : r4.1 = run s2 r4.2 :=
-    foldl_fst_run stepV (fun acc x => ⟨toCache acc.1.mem x.1 (Entry.ofCmp x.2 .received) .received now ++
-        processCore H (run acc.1 (toCache acc.1.mem x.1 (Entry.ofCmp x.2 .received) .received now))
-          x.1 { Entry.ofCmp x.2 .received with time := now } now,
-        by simp only [stepV, run_append, List.append_assoc]⟩) s2 vals r3 hr3
+    foldl_fst_run stepV (fun acc x => ⟨_, rfl⟩) s2 vals r3 hr3
   have hF : ∀ (xs : List (Name × Cmp)) (acc : State × List Prim),
       (xs.foldl stepF acc).1 = xs.foldl (stF now) acc.1 := by
     intro xs
@@ -117,7 +112,7 @@ theorem Same.trans {n : Name} {a b c : State} (h1 : Same n a b) (h2 : Same n b c
 /-- primitives of Recover that are `Same n` -/
 def dq (n : Name) : Prim → Bool
   | .rmCmp m | .renPartFull m | .rmFull m | .renFullWait m | .fqPush m _ => m != n
-  | .cacheSet .. | .lockAdd .. | .setReady .. | .cacheTimeSet .. | .cacheTimesSet .. => true
+  | .cacheSet .. | .lockAdd .. | .lockDel .. | .setReady .. | .cacheTimeSet .. | .cacheTimesSet .. => true
   | _ => false
 
 theorem dq_prim (n : Name) (t : State) (p : Prim) (h : dq n p = true) : Same n t (applyPrim t p) := by
@@ -141,6 +136,7 @@ theorem dq_prim (n : Name) (t : State) (p : Prim) (h : dq n p = true) : Same n t
     constructor <;> simp [applyPrim, applyDisk, applyMem, hmn]
   | cacheSet m e => constructor <;> simp [applyPrim, applyDisk, applyMem]
   | lockAdd m => constructor <;> simp [applyPrim, applyDisk, applyMem]
+  | lockDel m => constructor <;> simp [applyPrim, applyDisk, applyMem]
   | setReady b => constructor <;> simp [applyPrim, applyDisk, applyMem]
   | cacheTimeSet b => constructor <;> simp [applyPrim, applyDisk, applyMem]
   | cacheTimesSet b => constructor <;> simp [applyPrim, applyDisk, applyMem]
@@ -200,10 +196,10 @@ theorem stF_other (n : Name) (now : Int) (t : State) (x : Name × Cmp) (hx : x.1
 theorem stV_other (n : Name) (H : Body → String) (now : Int) (t : State) (x : Name × Cmp)
     (hx : x.1 ≠ n) : SameC n t (stV H now t x) := by
   unfold stV
-  refine SameC.trans (sameC_run n (toCache t.mem x.1 (Entry.ofCmp x.2 .received) .received now)
-    (toCache_dq n _ _ _ _ _ rfl (by decide))
-    (toCache_quietFor n _ _ _ _ _ hx rfl (by decide)) t) ?_
-  exact sameC_run n _ (processCore_dq n H _ _ _ _ hx rfl) (processCore_quietFor n H _ _ _ _ hx rfl) _
+  apply sameC_run
+  · exact recoverValOne_all (dq n) H t now x (by simp [dq, hx]) (by simp [dq, hx]) rfl
+      (toCache_dq n _ _ _ _ _ rfl (by decide)) (processCore_dq n H _ _ _ _ hx rfl)
+  · exact recoverValOne_quietFor n H t now x hx
 
 theorem foldl_sameC {α : Type} (n : Name) (f : State → α → State) (xs : List α)
     (h : ∀ t x, x ∈ xs → SameC n t (f t x)) (t : State) : SameC n t (xs.foldl f t) := by
@@ -308,12 +304,25 @@ theorem stF_own (H : Body → String) (now : Int) (t : State) (n : Name) (c : Cm
 def recvEntry (c : Cmp) (now : Int) : Entry :=
   { renamed := c.renamed, prev := c.prev, hash := c.hash, size := c.size, state := .received, time := now }
 
+theorem stV_dup (H : Body → String) (now : Int) (t : State) (n : Name) (c : Cmp)
+    (hd : recoverDup t.mem n c = true) :
+    stV H now t (n, c) = run t [Prim.rmFull n, Prim.rmCmp n, Prim.lockDel n] := by
+  unfold stV
+  rcases recoverValOne_cases H t now (n, c) with ⟨_, h⟩ | ⟨h0, _⟩
+  · rw [h]
+  · rw [hd] at h0; cases h0
+
 theorem stV_pass (H : Body → String) (now : Int) (t : State) (n : Name) (c : Cmp) (i : Nat)
+    (hd : recoverDup t.mem n c = false)
     (hf : t.disk.full n = some i) (hh : H (t.disk.body i) = c.hash) :
     stV H now t (n, c) = run t [Prim.cacheSet n (recvEntry c now), Prim.lockAdd n, Prim.renFullWait n,
       Prim.cacheSet n { recvEntry c now with state := .validated },
       Prim.fqPush n { recvEntry c now with state := .validated }] := by
   unfold stV
+  rcases recoverValOne_cases H t now (n, c) with ⟨h0, _⟩ | ⟨_, h⟩
+  · rw [hd] at h0; cases h0
+  rw [h, run_append]
+  simp only
   rw [toCache_plain _ _ _ _ _ rfl (by decide)]
   unfold processCore
   have hst : stateOf (run t [Prim.cacheSet n { Entry.ofCmp c .received with state := .received, time := now }]).mem n
@@ -332,10 +341,15 @@ theorem stV_pass (H : Body → String) (now : Int) (t : State) (n : Name) (c : C
   rfl
 
 theorem stV_fail (H : Body → String) (now : Int) (t : State) (n : Name) (c : Cmp) (i : Nat)
+    (hd : recoverDup t.mem n c = false)
     (hf : t.disk.full n = some i) (hh : H (t.disk.body i) ≠ c.hash) :
     stV H now t (n, c) = run t [Prim.cacheSet n (recvEntry c now), Prim.lockAdd n,
       Prim.cacheSet n { recvEntry c now with state := .failed }] := by
   unfold stV
+  rcases recoverValOne_cases H t now (n, c) with ⟨h0, _⟩ | ⟨_, h⟩
+  · rw [hd] at h0; cases h0
+  rw [h, run_append]
+  simp only
   rw [toCache_plain _ _ _ _ _ rfl (by decide)]
   unfold processCore
   have hst : stateOf (run t [Prim.cacheSet n { Entry.ofCmp c .received with state := .received, time := now }]).mem n
@@ -353,18 +367,43 @@ theorem stV_fail (H : Body → String) (now : Int) (t : State) (n : Name) (c : C
   rw [← run_append]
   rfl
 
+/-- the duplicate test says yes for an entry that is not cached or logged only if it is logged -/
+theorem recoverDup_isLogged (t : State) (n : Name) (c : Cmp) (hNL : NL n t)
+    (hd : recoverDup t.mem n c = true) :
+    ∃ e, t.mem.cache n = some e ∧ e.state = .logged ∧ e.hash = c.hash := by
+  unfold recoverDup at hd
+  rcases hNL with h | ⟨e, he, hst⟩
+  · rw [h] at hd; cases hd
+  · rw [he] at hd
+    simp only [decide_eq_true_eq] at hd
+    exact ⟨e, he, hst, hd.2⟩
+
 theorem stV_own (H : Body → String) (now : Int) (t : State) (n : Name) (c : Cmp) (i : Nat)
     (hf : t.disk.full n = some i) (hc : t.disk.cmp n = some c)
     (hfq : ∀ q, (n, q) ∉ t.mem.fq) (hvq : ∀ q, (n, q) ∉ t.mem.vq)
-    (hwl : isWaitingName t.mem n = false) :
-    (H (t.disk.body i) = c.hash → OutHeld H (stV H now t (n, c)) n c ∧
+    (hwl : isWaitingName t.mem n = false) (hNL : NL n t) :
+    (recoverDup t.mem n c = true →
+      Unlisted (stV H now t (n, c)) n ∧ (stV H now t (n, c)).disk.full n = none ∧
+      (stV H now t (n, c)).disk.cmp n = none ∧
+      (stV H now t (n, c)).disk.wait n = t.disk.wait n ∧
+      (stV H now t (n, c)).disk.part n = t.disk.part n ∧
+      (stV H now t (n, c)).disk.body = t.disk.body ∧
+      ∃ e, (stV H now t (n, c)).mem.cache n = some e ∧ e.state = .logged ∧ e.hash = c.hash) ∧
+    (recoverDup t.mem n c = false → H (t.disk.body i) = c.hash →
+      OutHeld H (stV H now t (n, c)) n c ∧
       (stV H now t (n, c)).disk.wait n = some i ∧ (stV H now t (n, c)).disk.full n = none ∧
       (stV H now t (n, c)).disk.part n = t.disk.part n) ∧
-    (H (t.disk.body i) ≠ c.hash → Refused H (stV H now t (n, c)) n c ∧
-      (stV H now t (n, c)).disk = t.disk) := by
-  constructor
-  · intro hh
-    rw [stV_pass H now t n c i hf hh]
+    (recoverDup t.mem n c = false → H (t.disk.body i) ≠ c.hash →
+      Refused H (stV H now t (n, c)) n c ∧ (stV H now t (n, c)).disk = t.disk) := by
+  refine ⟨?_, ?_, ?_⟩
+  · intro hd
+    obtain ⟨e, he, hst, hh⟩ := recoverDup_isLogged t n c hNL hd
+    rw [stV_dup H now t n c hd]
+    simp only [run_cons, run_nil, applyPrim, applyMem, applyDisk]
+    refine ⟨⟨Or.inr ⟨e, he, hst⟩, hfq, hvq, hwl⟩, upd_same _ _ _, upd_same _ _ _, trivial, trivial,
+      trivial, e, he, hst, hh⟩
+  · intro hd hh
+    rw [stV_pass H now t n c i hd hf hh]
     simp only [run_cons, run_nil, applyPrim, applyMem, applyDisk, hf]
     refine ⟨⟨⟨_, upd_same _ _ _, rfl, rfl⟩, ⟨i, upd_same _ _ _, hh⟩, hc,
       Or.inl ⟨_, List.mem_append_right _ (List.mem_singleton_self _)⟩, ?_⟩,
@@ -374,8 +413,8 @@ theorem stV_own (H : Body → String) (now : Int) (t : State) (n : Name) (c : Cm
     rcases hq with hq | hq
     · exact absurd hq (hfq q)
     · subst hq; simp [recvEntry]
-  · intro hh
-    rw [stV_fail H now t n c i hf hh]
+  · intro hd hh
+    rw [stV_fail H now t n c i hd hf hh]
     simp only [run_cons, run_nil, applyPrim, applyMem, applyDisk]
     exact ⟨⟨⟨_, upd_same _ _ _, rfl, rfl⟩, ⟨i, hf, hh⟩, hc, hfq, hvq, hwl⟩, trivial⟩
 
@@ -470,10 +509,19 @@ theorem recover_skeleton (H : Body → String) (s : State) (now : Int) (ns1 ns2 
       SameC n s a ∧ SameC n (run a (recoverWalk H s.disk n).1) s1 ∧
       SameC n (run s1 (buildCacheEffects s1 (minMtime s.disk now (ns1 ++ n :: ns2) - 86400) now)) f1 ∧
       SameC n (ownF H s.disk now n f1) v1 ∧
-      SameC n (ownV H s.disk now n v1) (run s (recoverEffects H s now (ns1 ++ n :: ns2))) := by
+      SameC n (ownV H s.disk now n v1) (run s (recoverEffects H s now (ns1 ++ n :: ns2))) ∧
+      run s1 (buildCacheEffects s1 (minMtime s.disk now (ns1 ++ n :: ns2) - 86400) now) =
+        recS2 H s now (ns1 ++ n :: ns2) := by
   rw [recover_state]
-  unfold recS2
-  rw [recP1_split, run_append, run_append, recFins_fold_split, recVals_fold_split]
+  have hS2 : recS2 H s now (ns1 ++ n :: ns2) =
+      run (run (run (run s ([Prim.setReady false] ++ walkPs H s.disk ns1)) (recoverWalk H s.disk n).1)
+        (walkPs H s.disk ns2))
+        (buildCacheEffects (run (run (run s ([Prim.setReady false] ++ walkPs H s.disk ns1))
+          (recoverWalk H s.disk n).1) (walkPs H s.disk ns2))
+          (minMtime s.disk now (ns1 ++ n :: ns2) - 86400) now) := by
+    unfold recS2
+    rw [recP1_split, run_append, run_append]
+  rw [hS2, recFins_fold_split, recVals_fold_split]
   obtain ⟨w1a, w1b⟩ := walkPs_other H s.disk ns1 n h1
   obtain ⟨w2a, w2b⟩ := walkPs_other H s.disk ns2 n h2
   generalize ha : run s ([Prim.setReady false] ++ walkPs H s.disk ns1) = a
@@ -482,7 +530,7 @@ theorem recover_skeleton (H : Body → String) (s : State) (now : Int) (ns1 ns2 
   generalize hf1 : (recFins H s.disk ns1).foldl (stF now) s2 = f1
   generalize hv1 : (recVals H s.disk ns1).foldl (stV H now)
     ((recFins H s.disk ns2).foldl (stF now) (ownF H s.disk now n f1)) = v1
-  refine ⟨a, s1, f1, v1, ?_, ?_, ?_, ?_, ?_⟩
+  refine ⟨a, s1, f1, v1, ?_, ?_, ?_, ?_, ?_, hs2⟩
   · rw [← ha]
     exact sameC_run n ([Prim.setReady false] ++ walkPs H s.disk ns1)
       (by simp only [List.all_append, Bool.and_eq_true]; exact ⟨by simp [dq], w1a⟩)
@@ -540,10 +588,11 @@ theorem recover_prefix (H : Body → String) (s0 : State) (now : Int) (ns1 ns2 :
       SameC n (crash s0) a ∧ Same n (run a (recoverWalk H s0.disk n).1) f1 ∧ NL n f1 ∧ Fresh n f1 ∧
       SameC n (ownF H s0.disk now n f1) v1 ∧
       SameC n (ownV H s0.disk now n v1)
-        (run (crash s0) (recoverEffects H (crash s0) now (ns1 ++ n :: ns2))) := by
-  obtain ⟨a, s1, f1, v1, ha, hs1, hf1, hv1, ht⟩ := recover_skeleton H (crash s0) now ns1 ns2 n h1 h2
+        (run (crash s0) (recoverEffects H (crash s0) now (ns1 ++ n :: ns2))) ∧
+      f1.mem.cache n = (recS2 H (crash s0) now (ns1 ++ n :: ns2)).mem.cache n := by
+  obtain ⟨a, s1, f1, v1, ha, hs1, hf1, hv1, ht, hS2⟩ := recover_skeleton H (crash s0) now ns1 ns2 n h1 h2
   have hd : (crash s0).disk = s0.disk := rfl
-  rw [hd] at hs1 hf1 hv1 ht
+  rw [hd] at hs1 hf1 hv1 ht hS2
   have hsame : Same n (run a (recoverWalk H s0.disk n).1) f1 :=
     hs1.1.trans ((dq_run n _ (buildCache_dq n s1 _ now) s1).trans hf1.1)
   have hcache : s1.mem.cache n = none := by
@@ -556,7 +605,7 @@ theorem recover_prefix (H : Body → String) (s0 : State) (now : Int) (ns1 ns2 :
     have hfa : Fresh n a := (Fresh_crash n s0).same ha.1
     unfold Fresh at hfa ⊢
     rw [walkOwn_mem]; exact hfa
-  exact ⟨a, f1, v1, ha, hsame, hNL, hfresh.same hsame, hv1, ht⟩
+  exact ⟨a, f1, v1, ha, hsame, hNL, hfresh.same hsame, hv1, ht, by rw [hf1.2, hS2]⟩
 
 /-! ## the outcome of Recover for a name, by the walk's classification of the crash image -/
 
@@ -604,7 +653,7 @@ theorem recover_finalize_outcome (H : Body → String) (s0 : State) (now : Int) 
     OutHeld H (run (crash s0) (recoverEffects H (crash s0) now names)) n c ∧
     FilesEq n s0.disk (run (crash s0) (recoverEffects H (crash s0) now names)).disk := by
   obtain ⟨ns1, ns2, rfl, h1, h2⟩ := split_names names n hn hnd
-  obtain ⟨a, f1, v1, ha, hsame, hNL, hfresh, hv1, ht⟩ := recover_prefix H s0 now ns1 ns2 n h1 h2
+  obtain ⟨a, f1, v1, ha, hsame, hNL, hfresh, hv1, ht, hcache⟩ := recover_prefix H s0 now ns1 ns2 n h1 h2
   rw [walk_of_finalize H s0.disk n c hcls, run_nil] at hsame
   have hF : ownF H s0.disk now n f1 = stF now f1 (n, c) := by simp only [ownF, hcls]
   have hV : ownV H s0.disk now n v1 = v1 := by simp only [ownV, hcls]
@@ -655,25 +704,230 @@ theorem walk_of_validate (H : Body → String) (d : Disk) (n : Name) (c : Cmp)
         · rw [ha.wait]
         · rw [ha.body]
 
+theorem recoverDup_congr (m m' : Mem) (n : Name) (c : Cmp) (h : m'.cache n = m.cache n) :
+    recoverDup m' n c = recoverDup m n c := by
+  unfold recoverDup
+  rw [h]
+
+theorem buildCache_mem (t : State) (frm now : Int) :
+    (buildCacheEffects t frm now).all (fun p => !p.durable) = true := by
+  simp only [List.all_eq_true]
+  intro p hp
+  rcases buildCacheEffects_spec t frm now p hp with ⟨r, _, e, rfl⟩ | ⟨l, rfl⟩ | ⟨x, rfl⟩ <;> rfl
+
+theorem recP1_walkPrim (H : Body → String) (d : Disk) (names : List Name) :
+    (recP1 H d names).all walkPrim = true := by
+  simp only [recP1, List.all_append, List.all_flatMap, Bool.and_eq_true]
+  refine ⟨by simp [walkPrim], ?_⟩
+  simp only [List.all_eq_true]
+  intro x hx
+  simp only [List.mem_map] at hx
+  obtain ⟨m, _, rfl⟩ := hx
+  intro p hp
+  rcases recoverWalk_prims H d m p hp with h | h <;> (subst h; rfl)
+
+/-- after the walk and the cache build of Recover on a crash image the log is the log at the
+    crash point and every logged cache entry is backed by it -/
+theorem recS2_logged (H : Body → String) (s0 : State) (now : Int) (names : List Name) :
+    (recS2 H (crash s0) now names).disk.log = s0.disk.log ∧
+    LoggedHashInv (recS2 H (crash s0) now names) := by
+  unfold recS2
+  have hd : (crash s0).disk = s0.disk := rfl
+  rw [hd]
+  have hp1 := recP1_walkPrim H s0.disk names
+  constructor
+  · rw [run_disk_of_mem _ _ (buildCache_mem _ _ _), (run_walkPrim _ hp1 (crash s0)).2.2]; rfl
+  · have h0 : LoggedHashInv (crash s0) := by intro n e he; simp [crash] at he
+    have h1 : LoggedHashInv (run (crash s0) (recP1 H s0.disk names)) := by
+      apply inv_run LoggedHashInv_step _ _ h0
+      apply GuardsH_of_all_benign
+      simp only [List.all_eq_true] at hp1 ⊢
+      intro p hp
+      have := hp1 p hp
+      cases p <;> simp_all [walkPrim, benign]
+    exact inv_run LoggedHashInv_step _ _ h1 (GuardsH_of_forall _ _ (buildCache_forall _ _ _))
+
+/-- a list of cache writes of entries built from records: an entry of `n` that is there
+    afterwards and was not there before carries the hash of a record of `n` -/
+theorem loaded_hash (n : Name) (recs : List LogRec) (now : Int) (ps : List Prim)
+    (h : ∀ p ∈ ps, ∃ r ∈ recs, p = Prim.cacheSet r.name
+      { renamed := r.renamed, prev := "", hash := r.hash, size := r.size, state := .logged,
+        logged := some r.time, time := now })
+    (t : State) (P : Entry → Prop) (hP : ∀ e, t.mem.cache n = some e → P e)
+    (hrec : ∀ r ∈ recs, r.name = n → ∀ e : Entry, e.hash = r.hash → e.state = .logged → P e) :
+    ∀ e, (run t ps).mem.cache n = some e → P e := by
+  induction ps generalizing t with
+  | nil => exact hP
+  | cons p ps ih =>
+    rw [run_cons]
+    apply ih (fun q hq => h q (by simp [hq]))
+    obtain ⟨r, hr, rfl⟩ := h p (by simp)
+    intro e he
+    simp only [applyPrim, applyMem] at he
+    by_cases hnr : n = r.name
+    · subst hnr
+      simp only [upd_same, Option.some.injEq] at he
+      subst he
+      exact hrec r hr rfl _ rfl rfl
+    · simp only [upd_other _ _ _ _ hnr] at he
+      exact hP e he
+
+/-- what Recover's cache build loads for `n` on a crash image: only logged entries carrying the
+    hash of a record of `n` from the days it reads; and an entry IS loaded when there is such a
+    record. (`buildRecs s0 frm now` = the records of the day files from `frm` = oldest companion
+    − 1 day to `now`.) -/
+theorem recS2_loaded (H : Body → String) (s0 : State) (now : Int) (names : List Name) (n : Name) :
+    (∀ e, (recS2 H (crash s0) now names).mem.cache n = some e →
+      e.state = .logged ∧
+      ∃ r ∈ buildRecs s0 (minMtime s0.disk now names - 86400) now, r.name = n ∧ e.hash = r.hash) ∧
+    ((∃ r ∈ buildRecs s0 (minMtime s0.disk now names - 86400) now, r.name = n) →
+      ∃ e, (recS2 H (crash s0) now names).mem.cache n = some e) := by
+  unfold recS2
+  have hd : (crash s0).disk = s0.disk := rfl
+  rw [hd]
+  obtain ⟨hc1, hct1, hlog1⟩ := run_walkPrim _ (recP1_walkPrim H s0.disk names) (crash s0)
+  generalize hs1 : run (crash s0) (recP1 H s0.disk names) = s1 at *
+  have hcache1 : s1.mem.cache n = none := by rw [hc1]; rfl
+  have hct1' : s1.mem.cacheTime = none := hct1
+  have hrecs : buildRecs s1 (minMtime s0.disk now names - 86400) now =
+      buildRecs s0 (minMtime s0.disk now names - 86400) now := buildRecs_congr s0 s1 _ _ hlog1
+  rw [buildCacheEffects_none s1 _ now hct1', hrecs]
+  constructor
+  · intro e he
+    rw [run_append, run_noCache _ (bcTail_noCache _ _ _ _)] at he
+    exact loaded_hash n _ now _ (buildCacheLoad_mem _ _ now) s1
+      (fun e => e.state = .logged ∧
+        ∃ r ∈ buildRecs s0 (minMtime s0.disk now names - 86400) now, r.name = n ∧ e.hash = r.hash)
+      (by intro e he; rw [hcache1] at he; cases he)
+      (fun r hr hrn e heh hst => ⟨hst, r, hr, hrn, heh⟩) e he
+  · intro hex
+    obtain ⟨e, he, _⟩ := (load_core s1 _ now _ n (bcTail_noCache s1
+      (buildRecs s0 (minMtime s0.disk now names - 86400) now) (minMtime s0.disk now names - 86400) now)).2.2
+        (Or.inl hcache1) hex
+    exact ⟨e, he⟩
+
+/-- a disk-level condition for `Remembered`: the receive log has a record of `n` in the days
+    Recover's cache build reads, and every record of `n` in those days carries the companion's
+    hash (the first record of a name wins in buildCache). -/
+theorem remembered_of_window (H : Body → String) (s0 : State) (now : Int) (names : List Name)
+    (n : Name) (c : Cmp)
+    (hex : ∃ r ∈ buildRecs s0 (minMtime s0.disk now names - 86400) now, r.name = n)
+    (hone : ∀ r ∈ buildRecs s0 (minMtime s0.disk now names - 86400) now, r.name = n → r.hash = c.hash) :
+    recoverDup (recS2 H (crash s0) now names).mem n c = true := by
+  obtain ⟨h1, h2⟩ := recS2_loaded H s0 now names n
+  obtain ⟨e, he⟩ := h2 hex
+  obtain ⟨hst, r, hr, hrn, hh⟩ := h1 e he
+  unfold recoverDup
+  rw [he]
+  simp [hst, FState.num, hh, hone r hr hrn]
+
+theorem buildCacheLoad_cons (r : LogRec) (rs : List LogRec) (cached : Name → Bool) (now : Int) :
+    buildCacheLoad (r :: rs) cached now =
+      if cached r.name then buildCacheLoad rs cached now
+      else Prim.cacheSet r.name
+             { renamed := r.renamed, prev := "", hash := r.hash, size := r.size, state := .logged,
+               logged := some r.time, time := now } :: buildCacheLoad rs cached now := by
+  rw [buildCacheLoad]
+
+theorem buildCacheLoad_append (a b : List LogRec) (cached : Name → Bool) (now : Int) :
+    buildCacheLoad (a ++ b) cached now = buildCacheLoad a cached now ++ buildCacheLoad b cached now := by
+  induction a with
+  | nil => rfl
+  | cons r rs ih =>
+    simp only [List.cons_append, buildCacheLoad_cons]
+    split
+    · exact ih
+    · simp [ih]
+
+/-- records of other names do not touch the entry of `n` -/
+theorem buildCacheLoad_other (n : Name) (recs : List LogRec) (cached : Name → Bool) (now : Int)
+    (h : ∀ r ∈ recs, r.name ≠ n) (t : State) :
+    (run t (buildCacheLoad recs cached now)).mem.cache n = t.mem.cache n := by
+  apply (quietFor_run n _ _ t).1
+  simp only [List.all_eq_true]
+  intro p hp
+  obtain ⟨r, hr, rfl⟩ := buildCacheLoad_mem recs cached now p hp
+  simp [quietFor, h r hr]
+
+/-- after `fix:` "buildCache kept the oldest of several records of a name": on a crash image
+    Recover's cache build loads for `n` the LAST record of `n` in the day files it reads. -/
+theorem recS2_loaded_last (H : Body → String) (s0 : State) (now : Int) (names : List Name) (n : Name)
+    (pre post : List LogRec) (r : LogRec)
+    (hsplit : buildRecs s0 (minMtime s0.disk now names - 86400) now = pre ++ r :: post)
+    (hrn : r.name = n) (hpost : ∀ r' ∈ post, r'.name ≠ n) :
+    ∃ e, (recS2 H (crash s0) now names).mem.cache n = some e ∧ e.state = .logged ∧ e.hash = r.hash := by
+  unfold recS2
+  have hd : (crash s0).disk = s0.disk := rfl
+  rw [hd]
+  obtain ⟨hc1, hct1, hlog1⟩ := run_walkPrim _ (recP1_walkPrim H s0.disk names) (crash s0)
+  generalize hs1 : run (crash s0) (recP1 H s0.disk names) = s1 at *
+  have hcache1 : s1.mem.cache n = none := by rw [hc1]; rfl
+  have hct1' : s1.mem.cacheTime = none := hct1
+  have hrecs : buildRecs s1 (minMtime s0.disk now names - 86400) now =
+      buildRecs s0 (minMtime s0.disk now names - 86400) now := buildRecs_congr s0 s1 _ _ hlog1
+  rw [buildCacheEffects_none s1 _ now hct1', hrecs, hsplit]
+  rw [run_append, run_noCache _ (bcTail_noCache _ _ _ _), buildCacheLoad_append, run_append]
+  generalize run s1 (buildCacheLoad pre (fun x => (s1.mem.cache x).isSome) now) = t1
+  have hcn : (fun x => (s1.mem.cache x).isSome) r.name = false := by simp [hrn, hcache1]
+  rw [buildCacheLoad_cons, if_neg (by simp [hcn])]
+  rw [run_cons, buildCacheLoad_other n post _ now hpost]
+  subst hrn
+  simp only [applyPrim, applyMem]
+  exact ⟨_, upd_same _ _ _, rfl, rfl⟩
+
+/-- the disk-level condition for `Remembered` after both repairs: the LAST record of `n` in the
+    day files Recover's cache build reads carries the companion's hash. -/
+theorem remembered_of_last (H : Body → String) (s0 : State) (now : Int) (names : List Name)
+    (n : Name) (c : Cmp) (pre post : List LogRec) (r : LogRec)
+    (hsplit : buildRecs s0 (minMtime s0.disk now names - 86400) now = pre ++ r :: post)
+    (hrn : r.name = n) (hpost : ∀ r' ∈ post, r'.name ≠ n) (hh : r.hash = c.hash) :
+    recoverDup (recS2 H (crash s0) now names).mem n c = true := by
+  obtain ⟨e, he, hst, heh⟩ := recS2_loaded_last H s0 now names n pre post r hsplit hrn hpost
+  unfold recoverDup
+  rw [he]
+  simp [hst, FState.num, heh, hh]
+
+/-- the cache entry Recover's own cache build loads for `n` says: this version is delivered -/
+def Remembered (H : Body → String) (s0 : State) (now : Int) (names : List Name) (n : Name)
+    (c : Cmp) : Prop :=
+  recoverDup (recS2 H (crash s0) now names).mem n c = true
+
+/-- a remembered version is in the receive log -/
+theorem Remembered.logged {H : Body → String} {s0 : State} {now : Int} {names : List Name}
+    {n : Name} {c : Cmp} (h : Remembered H s0 now names n c) : LoggedV s0.disk n c.hash := by
+  obtain ⟨hlog, hinv⟩ := recS2_logged H s0 now names
+  obtain ⟨r, hr, hn⟩ := recoverDup_logged _ n c hinv h
+  exact ⟨r, by rw [← hlog]; exact hr, hn⟩
+
 /-- **class "validate".** The crash image has a companion, no `.wait` matching it, and `<n>.full`
-    or a complete `<n>.part`: Recover hashes that file; if the hash is the companion's, `n` is
-    `OutHeld` with that file as `<n>.wait`; if not, `n` is `Refused` and the file stays
+    or a complete `<n>.part`. If the cache entry that Recover's cache build loaded from the
+    receive log is logged with the companion's hash (`Remembered`), the staged copy is a
+    duplicate of a delivered version: `<n>.full` and the companion are removed, nothing is
+    queued (`Unlisted`). Otherwise Recover hashes the file; if the hash is the companion's, `n`
+    is `OutHeld` with that file as `<n>.wait`; if not, `n` is `Refused` and the file stays
     `<n>.full`. -/
 theorem recover_validate_outcome (H : Body → String) (s0 : State) (now : Int) (names : List Name)
     (n : Name) (c : Cmp) (hn : n ∈ names) (hnd : names.Nodup)
     (hcls : (recoverWalk H s0.disk n).2 = .validate c) :
     ∃ i, revalIno s0.disk n = some i ∧
-      (H (s0.disk.body i) = c.hash →
+      (Remembered H s0 now names n c →
+        Unlisted (run (crash s0) (recoverEffects H (crash s0) now names)) n ∧
+        (run (crash s0) (recoverEffects H (crash s0) now names)).disk.full n = none ∧
+        (run (crash s0) (recoverEffects H (crash s0) now names)).disk.cmp n = none ∧
+        (run (crash s0) (recoverEffects H (crash s0) now names)).disk.wait n = s0.disk.wait n ∧
+        ∃ e, (run (crash s0) (recoverEffects H (crash s0) now names)).mem.cache n = some e ∧
+          e.state = .logged ∧ e.hash = c.hash) ∧
+      (¬ Remembered H s0 now names n c → H (s0.disk.body i) = c.hash →
         OutHeld H (run (crash s0) (recoverEffects H (crash s0) now names)) n c ∧
         (run (crash s0) (recoverEffects H (crash s0) now names)).disk.wait n = some i ∧
         (run (crash s0) (recoverEffects H (crash s0) now names)).disk.full n = none) ∧
-      (H (s0.disk.body i) ≠ c.hash →
+      (¬ Remembered H s0 now names n c → H (s0.disk.body i) ≠ c.hash →
         Refused H (run (crash s0) (recoverEffects H (crash s0) now names)) n c ∧
         (run (crash s0) (recoverEffects H (crash s0) now names)).disk.full n = some i ∧
         (run (crash s0) (recoverEffects H (crash s0) now names)).disk.wait n = s0.disk.wait n) ∧
       (run (crash s0) (recoverEffects H (crash s0) now names)).disk.body = s0.disk.body := by
   obtain ⟨ns1, ns2, rfl, h1, h2⟩ := split_names names n hn hnd
-  obtain ⟨a, f1, v1, ha, hsame, hNL, hfresh, hv1, ht⟩ := recover_prefix H s0 now ns1 ns2 n h1 h2
+  obtain ⟨a, f1, v1, ha, hsame, hNL, hfresh, hv1, ht, hcache⟩ := recover_prefix H s0 now ns1 ns2 n h1 h2
   have hF : ownF H s0.disk now n f1 = f1 := by simp only [ownF, hcls]
   have hV : ownV H s0.disk now n v1 = stV H now v1 (n, c) := by simp only [ownV, hcls]
   rw [hF] at hv1
@@ -685,21 +939,36 @@ theorem recover_validate_outcome (H : Body → String) (s0 : State) (now : Int) 
   have hvb : v1.disk.body = s0.disk.body := by rw [hfv.body]; exact hbb
   have hvw : v1.disk.wait n = s0.disk.wait n := by rw [hfv.wait]; exact hbw
   have hfr : Fresh n v1 := hfresh.same hv1.1
-  obtain ⟨hpass, hfail⟩ := stV_own H now v1 n c i hvf hvc hfr.1 hfr.2.1 hfr.2.2
+  have hNLv : NL n v1 := by
+    unfold NL IsLogged at hNL ⊢
+    rw [hv1.2]; exact hNL
+  have hdup : recoverDup v1.mem n c =
+      recoverDup (recS2 H (crash s0) now (ns1 ++ n :: ns2)).mem n c :=
+    recoverDup_congr _ _ n c (by rw [hv1.2, hcache])
+  obtain ⟨hdrop, hpass, hfail⟩ := stV_own H now v1 n c i hvf hvc hfr.1 hfr.2.1 hfr.2.2 hNLv
+  rw [hdup] at hdrop hpass hfail
   rw [hvb] at hpass hfail
-  refine ⟨i, hi, ?_, ?_, ?_⟩
-  · intro hh
-    obtain ⟨hheld, hw, hf, _⟩ := hpass hh
+  have hnot : ∀ {b : Bool}, ¬ b = true → b = false := by intro b h; cases b <;> simp_all
+  refine ⟨i, hi, ?_, ?_, ?_, ?_⟩
+  · intro hrem
+    obtain ⟨hun, hf, hc, hw, _, _, e, he, hst, hh⟩ := hdrop hrem
+    exact ⟨hun.same ht, by rw [ht.1.full]; exact hf, by rw [ht.1.cmp]; exact hc,
+      by rw [ht.1.wait, hw]; exact hvw, e, by rw [ht.2]; exact he, hst, hh⟩
+  · intro hrem hh
+    obtain ⟨hheld, hw, hf, _⟩ := hpass (hnot hrem) hh
     exact ⟨hheld.same ht, by rw [ht.1.wait]; exact hw, by rw [ht.1.full]; exact hf⟩
-  · intro hh
-    obtain ⟨href, hd⟩ := hfail hh
+  · intro hrem hh
+    obtain ⟨href, hd⟩ := hfail (hnot hrem) hh
     exact ⟨href.same ht, by rw [ht.1.full, hd]; exact hvf, by rw [ht.1.wait, hd]; exact hvw⟩
   · rw [ht.1.body]
-    by_cases hh : H (s0.disk.body i) = c.hash
-    · rw [stV_pass H now v1 n c i hvf (by rw [hvb]; exact hh)]
-      simp only [run_cons, run_nil, applyPrim, applyDisk, hvf]
-      exact hvb
-    · rw [(hfail hh).2]; exact hvb
+    cases hd : recoverDup (recS2 H (crash s0) now (ns1 ++ n :: ns2)).mem n c with
+    | true => rw [(hdrop hd).2.2.2.2.2.1]; exact hvb
+    | false =>
+      by_cases hh : H (s0.disk.body i) = c.hash
+      · rw [stV_pass H now v1 n c i (by rw [hdup]; exact hd) hvf (by rw [hvb]; exact hh)]
+        simp only [run_cons, run_nil, applyPrim, applyDisk, hvf]
+        exact hvb
+      · rw [(hfail hd hh).2]; exact hvb
 
 /-- the disk conditions of the class "nothing" -/
 theorem recover_nothing_cases (H : Body → String) (d : Disk) (n : Name)
@@ -741,7 +1010,7 @@ theorem recover_nothing_outcome (H : Body → String) (s0 : State) (now : Int) (
      (recoverWalk H s0.disk n).1 = [Prim.rmCmp n] ∧
        (run (crash s0) (recoverEffects H (crash s0) now names)).disk.cmp n = none) := by
   obtain ⟨ns1, ns2, rfl, h1, h2⟩ := split_names names n hn hnd
-  obtain ⟨a, f1, v1, ha, hsame, hNL, hfresh, hv1, ht⟩ := recover_prefix H s0 now ns1 ns2 n h1 h2
+  obtain ⟨a, f1, v1, ha, hsame, hNL, hfresh, hv1, ht, hcache⟩ := recover_prefix H s0 now ns1 ns2 n h1 h2
   have hF : ownF H s0.disk now n f1 = f1 := by simp only [ownF, hcls]
   have hV : ownV H s0.disk now n v1 = v1 := by simp only [ownV, hcls]
   rw [hF] at hv1
